@@ -326,6 +326,22 @@ pub fn generate(seed: u64, n: usize, _thorough: bool, _corpus: Option<&str>) -> 
         let lm = fam_residue(&mut r4);
         cases_for_kinds(&lm, "simplex-round-off-residue", &variants, &[SolverKind::Simplex], &mut cases);
     }
+    // large right-hand sides with a small ABSOLUTE margin of (in)feasibility: a phase-1 residual of a few units next to
+    // rhs ~1e5..1e6 is still infeasible (seeded change C05-16 made the test relative to the scale) - deterministic
+    for kk in [100000.0f64, 200000.0, 500000.0, 1000000.0] {
+        for margin in [-3.0f64, -1.0, 1.0, 2.0, 5.0] {
+            for nv in [2usize, 3] {
+                for (mx, eq) in [(false, false), (true, false), (false, true)] {
+                    let mut m = LinearModel::new();
+                    for i in 0..nv { m.add_variable(&format!("v{}", i), VariableType::NonNegativeReal(0.0, f64::INFINITY)); }
+                    for i in 0..nv { let mut cs = vec![0.0; nv]; cs[i] = 1.0; m.add_constraint(cs, Comparison::LessOrEqual, kk); }
+                    m.add_constraint(vec![1.0; nv], if eq { Comparison::Equal } else { Comparison::GreaterOrEqual }, kk * nv as f64 + margin);
+                    m.set_objective((0..nv).map(|i| (i + 1) as f64).collect(), if mx { OptimizationType::Max } else { OptimizationType::Min });
+                    cases_for_kinds(&m, "large-rhs-small-margin", &variants, &[SolverKind::Simplex, SolverKind::MicroLp], &mut cases);
+                }
+            }
+        }
+    }
     child::shutdown();
     cases
 }
